@@ -25,7 +25,8 @@ EXTS = ["sql", "ddl", "hql", "bql"]
 DECOY_EXTS = ["txt", "json", "md", "sqlx", "bak"]
 # the last four carry characters that str.splitlines() treats as line boundaries but file reading does not
 SNIPPETS = ["-- résumé of the table ü\n", "-- plain ascii comment\n", "", "", "-- naïve £ sign\n", "-- page break \x0c after it\n",
-            "-- unicode line separator \u2028 inside\n", "-- next-line \x85 character\n", "-- vt \x0b and fs \x1c here\n"]
+            "-- unicode line separator \u2028 inside\n", "-- next-line \x85 character\n", "-- vt \x0b and fs \x1c here\n",
+            "CREATE TABLE snip_t (a int); -- a reported (trailing) comment\n"]
 STEMS = ["a", "tbl", "my_table", "x1", "Data", "orders", "t-1", "q_2"]
 # a stale output file that is *longer* than any result, so that an in-place overwrite without truncation leaves a tail behind
 STALE = json.dumps({"stale": True, "padding": "x" * 20000})
@@ -53,6 +54,8 @@ def api_case(draw):
         ps["normalize_names"] = draw(st.booleans())
     if draw(st.integers(0, 3)) == 0:
         ps["silent"] = True
+    if draw(st.integers(0, 7)) == 0:
+        ps["debug"] = True  # debug implies non-silent: the reference gets the very same settings
     kw = {}
     if draw(st.booleans()):
         kw["output_mode"] = draw(st.sampled_from(universe.MODES))
@@ -87,7 +90,9 @@ def cli_case(draw):
             decoys.append(fn)
     return {"kind": "cli", "dir_mode": dir_mode, "files": files, "decoys": decoys, "target": draw(st.sampled_from(["default", "missing", "nested", "existing", "stale"])),
             "mode": draw(st.one_of(st.none(), st.sampled_from(universe.MODES))), "verbose": draw(st.booleans()), "no_dump": draw(st.integers(0, 2)) == 0,
-            "long_opts": draw(st.booleans()), "subprocess": False}
+            "long_opts": draw(st.booleans()), "subprocess": False,
+            # single-file mode through a symbolic link whose name differs from its target's: the input base name is the link's
+            "symlink": (not dir_mode) and draw(st.integers(0, 4)) == 0}
 
 
 def candidates(fname):
@@ -298,6 +303,14 @@ class C19(Prop):
                         fh.write(STALE)
             before = listing(root)
             path = src if case["dir_mode"] else os.path.join(src, case["files"][0]["name"])
+            if case.get("symlink") and not case["dir_mode"]:
+                link_name = "cur_" + case["files"][0]["name"]
+                os.makedirs(os.path.join(root, "links"))
+                os.symlink(path, os.path.join(root, "links", link_name))
+                path = os.path.join(root, "links", link_name)
+                refs[link_name] = refs[case["files"][0]["name"]]
+                out.label("symlink")
+            before = listing(root)
             argv = self.argv(case, path, target)
             out.label("cli", "dir_mode=%s" % case["dir_mode"], "target:" + tkind, "no_dump=%s" % case["no_dump"], "subprocess=%s" % case["subprocess"])
             out.nontrivial = (case["dir_mode"] or tkind in ("missing", "nested", "default") or any(f["name"].count(".") > 1 for f in case["files"])) and \
@@ -341,7 +354,7 @@ class C19(Prop):
             tdir = os.path.relpath(target, root)
             names = [f["name"] for f in case["files"]]
             if not case["dir_mode"]:
-                names = names[:1]
+                names = ["cur_" + names[0]] if case.get("symlink") else names[:1]
             if case["no_dump"]:
                 if new:
                     out.fail("no-dump-writes", "--no-dump created %r" % new)
